@@ -109,7 +109,7 @@ let gparam_of (e : sexp) : gparam =
 
 let input_of (e : sexp) : raw_input =
   match e with
-  | L [A "input"; L [A "kind"; A k]; L [A "ident"; A id]; L (A "generics" :: gs); ats; body] ->
+  | L [A "input"; L [A "kind"; A k]; L [A "ident"; A id]; L (A "generics" :: gs); L (A "where" :: ws); ats; body] ->
       let data =
         match k, body with
         | "struct-named", fs -> RStruct (ShNamed, fields_of fs)
@@ -118,7 +118,8 @@ let input_of (e : sexp) : raw_input =
         | "enum", L (A "variants" :: vs) -> REnum (List.map variant_of vs)
         | "union", _ -> RUnion
         | _ -> failwith "kind" in
-      { ri_ident = id; ri_generics = List.map gparam_of gs; ri_attrs = attrs_of ats; ri_data = data }
+      let preds = List.map (function L (A "pred" :: ts) -> toks_of ts | _ -> failwith "pred") ws in
+      { ri_ident = id; ri_generics = List.map gparam_of gs; ri_where = preds; ri_attrs = attrs_of ats; ri_data = data }
   | _ -> failwith "input"
 
 (* ---- printing, identical to the harness ---- *)
